@@ -3,7 +3,7 @@
     Only theorem statements; proofs are [exact] of lemmas from Proofs/. *)
 From Coq Require Import List ZArith NArith Bool.
 From HK Require Import Model.Queue Model.QueueMon Proofs.QueueBase Proofs.QueueInv Proofs.QueueInvStep
-  Proofs.QueueStep Proofs.QueueAdmit.
+  Proofs.QueueStep Proofs.QueueAdmit Proofs.QueueMonC02 Proofs.QueueMonC12.
 Import ListNotations.
 Open Scope Z_scope.
 
@@ -84,6 +84,51 @@ Example C12_witness :
   = [(RUnit, [1%N]); (RUnit, [1%N; 2%N]); (RErr EExists, [1%N; 2%N]); (RUnit, [2%N; 3%N])].
 Proof. vm_compute. reflexivity. Qed.
 
+(** What a successful enqueue evicts, exactly, on either backend: [vs] are distinct ids of queued
+    messages of the pruned store [P]; as many as the new items need to fit and no more
+    (max 0 (A + k - max_depth) under drop_oldest with a depth limit, none otherwise; A = active count,
+    for the memory store with delivered retention the larger of active and active+delivered); under
+    the reject policy the items fit as they are; and every evicted message is no younger (received_at)
+    than every queued message that stays. *)
+Theorem C12_successful_enqueue_evicts_exactly : forall fl c now single es o s s' r,
+  es <> [] -> Inv s -> (fl = Mem -> order_covers s) -> step_enqueue fl c now single es o s = (s', r) ->
+  (msgs s' = msgs s /\ r = RBadOracle)
+  \/ (msgs s' = msgs (prune c now (o_gone o) s) /\ exists e, r = RErr e)
+  \/ (exists vs ies, assign_ids es (o_genids o) = Some ies
+        /\ evict_spec fl c (Z.of_nat (length ies)) (msgs (prune c now (o_gone o) s)) vs
+        /\ msgs s' = apply_pm (pm_remove_ids vs) (msgs (prune c now (o_gone o) s)) ++ mk_news now ies
+        /\ r = (if single then RUnit else RCount (Z.of_nat (length ies)) 0 false)).
+Proof. exact step_enqueue_shape12. Qed.
+
+(** The executable monitor [P_C12] - what the correspondence check evaluates on traces of the Go stores -
+    holds on every trace of the model (both flavours, every configuration and history) in which no
+    successful enqueue re-uses the id of a message stored when it started. *)
+Theorem C12_monitor_holds_on_every_model_trace : forall fl c xs,
+  Forall fresh_enqueue (model_trace fl c xs) -> P_C12 fl c (model_trace fl c xs) = true.
+Proof. exact P_C12_holds_on_model. Qed.
+
+Theorem C12_monitor_holds_on_every_step : forall fl c s x o s' r ins,
+  Inv s -> (fl = Mem -> order_covers s) -> step fl c s x o = (s', r) ->
+  fresh_enqueue (mkEvent x o r (msgs s) (msgs s')) ->
+  c12_event fl c ins (mkEvent x o r (msgs s) (msgs s')) = true.
+Proof. exact c12_event_holds. Qed.
+
+(** non-vacuity: a history with evictions on both flavours, a refusal and an operator-lifted queue *)
+Example C12_monitor_premise_met :
+  let e i := mkEnq (Some i) 1%N 1%N None None 5%N 0%N 0%N in
+  let o0 := mkOracle [] [] [] [] in
+  let h := [(Enqueue 100 (e 1%N), o0); (Enqueue 101 (e 2%N), o0);
+            (EnqueueBatch 102 [e 3%N; e 4%N], mkOracle [] [1%N; 2%N] [] []);       (* evicts 1 and 2 *)
+            (Enqueue 103 (e 4%N), o0);                                               (* duplicate id: refused, eviction undone *)
+            (Dequeue 200 None None 2 1000, mkOracle [(3%N, 11%N); (4%N, 12%N)] [] [] []);
+            (Enqueue 201 (e 5%N), o0)] in                                            (* both slots leased: full *)
+  let cfg := mkCfg 2 true 0 0 0 0 0 0 in
+  (forallb fresh_enqueueb (model_trace Sql cfg h) && forallb fresh_enqueueb (model_trace Mem cfg h),
+   map (fun ev => map m_id (ev_after ev)) (model_trace Sql cfg h),
+   P_C12 Sql cfg (model_trace Sql cfg h), P_C12 Mem cfg (model_trace Mem cfg h))
+  = (true, [[1]; [1; 2]; [3; 4]; [3; 4]; [3; 4]; [3; 4]]%N, true, true).
+Proof. vm_compute. reflexivity. Qed.
+
 Print Assumptions C12_refusal_frame.
 Print Assumptions C12_admitted_within_depth.
 Print Assumptions C12_active_bounded_along_history.
@@ -93,3 +138,6 @@ Print Assumptions C12_sql_victim_is_oldest_queued.
 Print Assumptions C12_mem_victim_is_oldest_queued.
 Print Assumptions C12_only_enqueue_raises_active.
 Print Assumptions C12_mem_first_victim_is_oldest_of_store.
+Print Assumptions C12_successful_enqueue_evicts_exactly.
+Print Assumptions C12_monitor_holds_on_every_model_trace.
+Print Assumptions C12_monitor_holds_on_every_step.
